@@ -251,4 +251,33 @@ theorem invW_of_accepted {log : List Ev} {s : St} (h : runLog step init log = so
         exact ih s1 s ⟨step_inv s0 s1 e h0.1 hs, step_invW s0 s1 e h0.1 h0.2 hs⟩ h
   exact this log _ s ⟨inv_init, invW_init⟩ h
 
+theorem grant_acc_post (s : St) (t a : Nat) (det : Bool) : post ((grant s t a det).acc a) = true := by
+  rw [(grant_frame s t a det).1]; cases det <;> simp [upd, post]
+
+theorem decRc_dn_self (s : St) (t g : Nat) : (decRc s t g).dn g = s.dn g := by
+  unfold decRc; split
+  · split
+    · have : g ≠ g + 1 := by omega
+      simp [upd, this]
+    · rfl
+  · rfl
+
+theorem grant_dn_self (s : St) (t a : Nat) (det : Bool) : (grant s t a det).dn (s.grp a) = s.dn (s.grp a) := by
+  unfold grant
+  cases det with
+  | false => rfl
+  | true => simp only [if_true]; exact decRc_dn_self _ t (s.grp a)
+
+theorem decRc_ng (s : St) (t g : Nat) : (decRc s t g).ng = s.ng := by
+  unfold decRc; split
+  · split <;> rfl
+  · rfl
+
+theorem grant_ng (s : St) (t a : Nat) (det : Bool) : (grant s t a det).ng = s.ng := by
+  unfold grant
+  cases det with
+  | false => rfl
+  | true => simp only [if_true]; exact decRc_ng _ t (s.grp a)
+
+
 end PikaVerif.Rw
